@@ -5,6 +5,7 @@ def dispatch (line : String) : String :=
   | "visitor" :: args => Visitor.handle args
   | "mro" :: args => Mro.handle args
   | "registry" :: args => Registry.handle args
+  | "modtable" :: args => ModTable.handle args
   | "inventory" :: args => Inventory.handle args
   | "signature" :: args => Signature.handle args
   | "glob" :: args => Glob.handle args
